@@ -48,6 +48,11 @@ def c08(ctx):
              "the sign of zero) is turned into text -- what `say` prints is the f64's own Display (shared with C18.R6)")
     from .c18 import text_from_cast_rule
     text_from_cast_rule(ctx, "C08.R6", scope=lambda fn: fn.file.startswith("src/exec/"), min_fns=60)
+    rep.rule("C08.R7", "fault table: KIND interprets Environment::output and Environment::input with every operation of the stream "
+             "(std::io::Write / BufRead / Read methods) returning Ok(_) or Err(_) with opaque payloads and every other test forked both ways; in "
+             "every outcome in which a stream operation failed the method returns Err, and in every outcome in which none failed it returns "
+             "Ok -- no kind of fault (BrokenPipe, a fault in the middle of a line, ...) and no state of the buffer turns a fault into success")
+    fault_table_rule(ctx, "C08.R7")
     rep.rule("C08.R4", "ERRFLOW over src/exec: no Result carrying a runtime / I/O error is discarded, defaulted, dropped or "
              "matched without looking at the error")
     rep.trust("std::io::Write::write_fmt / write_all write everything or return an error; BufRead::read_line reads one line")
@@ -281,3 +286,65 @@ def c08(ctx):
     # ---- R4
     n = common.errflow(ctx, "C08.R4", in_exec, exceptions=EXEC_ERRFLOW_EXCEPTIONS)
     rep.floor("C08.R4", n, 100, "error-carrying call results in src/exec")
+
+
+IO_METHODS = ("std::io::Write::write_fmt", "std::io::Write::write_all", "std::io::Write::write", "std::io::Write::flush",
+              "std::io::Write::write_vectored", "std::io::BufRead::read_line", "std::io::BufRead::fill_buf", "std::io::BufRead::read_until",
+              "std::io::BufRead::skip_until", "std::io::Read::read", "std::io::Read::read_to_string", "std::io::Read::read_exact",
+              "std::io::Read::read_to_end", "std::io::Read::read_buf")
+
+
+def fault_table_rule(ctx, rule):
+    from .. import kind, kindtables as kt
+    from ..kind import E
+    F, rep = ctx.F, ctx.rep
+    RES = "std::result::Result"
+
+    def m_io(tag):
+        def m(I, fn, st, t, args, depth):
+            yield E(RES, "Ok", ("sym", tag + "_ok")), None, ((("io", tag), "ok"),)
+            yield E(RES, "Err", ("sym", tag + "_err")), None, ((("io", tag), "err"),)
+        return m
+    models = {n: m_io(n.rsplit("::", 1)[-1]) for n in IO_METHODS}
+    env = inherent_methods(F, ENV)
+    n_out = 0
+    for name in ("output", "input"):
+        fn = env.get(name)
+        if fn is None:
+            continue
+        rep.analysed(fn)
+        I = kind.Interp(F, models=models)
+        args = [("sym", "self")] + [("sym", "a%d" % i) for i in range(2, fn.argc + 1)]
+        outs = list(I.run(fn, args))
+        if I.incomplete:
+            rep.fail(rule, "incomplete::" + name, "the interpretation of Environment::%s was cut off: the fault table is not decided" % name, fn.loc())
+            continue
+        bad = []
+        touched = False
+        for o in outs:
+            io = [(c, tk) for c, tk in o.conds if isinstance(c, tuple) and c and c[0] == "io"]
+            if io:
+                touched = True
+            failed = [c[1] for c, tk in io if tk == "err"]
+            ret = kt.term(o.ret)
+            if failed and not ret.startswith("Err("):
+                bad.append("%s failed but Environment::%s returns %s%s" % (failed[0], name, ret, _other_conds(kt, o)))
+            elif not failed and not ret.startswith("Ok("):
+                bad.append("no stream operation failed but Environment::%s returns %s%s" % (name, ret, _other_conds(kt, o)))
+            n_out += 1
+        ok = touched and not bad
+        rep.ob(rule, "fault-table::" + name, ok, "" if ok else (bad[0] if bad else "Environment::%s performs no stream operation the table knows" % name), fn.loc(),
+               how="%d outcomes: a failed stream operation <=> Err" % len(outs))
+    rep.floor(rule, n_out, 4, "outcomes of Environment::{output,input}")
+
+
+def _other_conds(kt, o):
+    rest = []
+    for c, tk in o.conds:
+        if isinstance(c, tuple) and c and c[0] == "io":
+            continue
+        try:
+            rest.append("%s -> %s" % (kt.term(c), tk))
+        except Exception:
+            rest.append("%s -> %s" % (c, tk))
+    return (" (when " + "; ".join(rest[:3]) + ")") if rest else ""
